@@ -104,7 +104,23 @@ func (g *argGen) perturbArgs(a stack.Args) stack.Args {
 	out.Values = make([]stack.Arg, len(a.Values))
 	for i := range a.Values {
 		v := a.Values[i]
-		if v.IsAggregate {
+		if v.IsAggregate && g.r.Intn(8) == 0 {
+			// same position, other shape: fewer / more fields, or a scalar
+			switch g.r.Intn(3) {
+			case 0:
+				if n := len(v.Fields.Values); n > 0 {
+					f := v.Fields
+					f.Values = append([]stack.Arg{}, f.Values[:n-1]...)
+					v.Fields = f
+				}
+			case 1:
+				f := v.Fields
+				f.Values = append(append([]stack.Arg{}, f.Values...), g.scalar())
+				v.Fields = f
+			default:
+				v = g.scalar()
+			}
+		} else if v.IsAggregate {
 			v.Fields = g.perturbArgs(v.Fields)
 		} else if g.r.Intn(3) == 0 {
 			switch g.r.Intn(5) {
@@ -120,6 +136,11 @@ func (g *argGen) perturbArgs(a stack.Args) stack.Args {
 				v = g.scalar()
 			case 3:
 				v.IsInaccurate = !v.IsInaccurate && !v.IsOffsetTooLarge
+			case 4:
+				// a different shape at the same position: scalar -> aggregate
+				if g.r.Intn(3) == 0 {
+					v = stack.Arg{IsAggregate: true, Fields: g.args(3, 2)}
+				}
 			}
 		}
 		out.Values[i] = v
